@@ -897,6 +897,84 @@ fn run_stress(rng: &mut Rng, senders: usize, per: usize) -> (String, String, Str
     (format!("vq hist {}", toks.join(" ")), verdict, if interleaved { "interleaved".into() } else { String::new() })
 }
 
+
+// =================================================================================================
+// forced interleavings through the sync point `events.ready_event.folded` (C08 cancel exactness):
+// the receiver is held right after it folded the timer commands; meanwhile another thread cancels
+// the pending timer (before its deadline) and the deadline passes; then the receiver goes on.
+
+thread_local! {
+    static IS_RECEIVER: std::cell::Cell<bool> = const { std::cell::Cell::new(false) };
+}
+
+fn run_race(kind: char) -> (String, String, String, String) {
+    use message_io::util::verif::set_sync_handler;
+    use std::sync::atomic::{AtomicBool, Ordering};
+    use std::sync::{Arc, Condvar, Mutex};
+    let armed = Arc::new(AtomicBool::new(false));
+    let at_point = Arc::new((Mutex::new(false), Condvar::new()));
+    let release = Arc::new((Mutex::new(false), Condvar::new()));
+    {
+        let (armed, at_point, release) = (armed.clone(), at_point.clone(), release.clone());
+        set_sync_handler(Some(Arc::new(move |name| {
+            if name == "events.ready_event.folded" && IS_RECEIVER.with(|f| f.get()) && armed.swap(false, Ordering::SeqCst) {
+                *at_point.0.lock().unwrap() = true;
+                at_point.1.notify_all();
+                let mut g = release.0.lock().unwrap();
+                while !*g {
+                    g = release.1.wait(g).unwrap();
+                }
+            }
+        })));
+    }
+    let mut q = EventReceiver::<u64>::default();
+    let tx = q.sender().clone();
+    let before = Instant::now();
+    let id = tx.send_with_timer(7, Duration::from_millis(40));
+    let armed2 = armed.clone();
+    let rx_thread = std::thread::spawn(move || {
+        IS_RECEIVER.with(|f| f.set(true));
+        std::thread::sleep(Duration::from_millis(20));
+        armed2.store(true, Ordering::SeqCst);
+        let r1 = if kind == 'T' { q.try_receive() } else { q.receive_timeout(Duration::from_millis(10)) };
+        std::thread::sleep(Duration::from_millis(5));
+        let r2 = q.try_receive();
+        (r1, r2)
+    });
+    // wait until the receiver sits at the sync point
+    let reached = {
+        let g = at_point.0.lock().unwrap();
+        let (g, _) = at_point.1.wait_timeout_while(g, Duration::from_secs(2), |r| !*r).unwrap();
+        *g
+    };
+    tx.cancel_timer(id);
+    let cancelled_at = Instant::now();
+    let in_time = cancelled_at < before + Duration::from_millis(40);
+    // let the deadline pass while the receiver is held
+    std::thread::sleep((before + Duration::from_millis(46)).saturating_duration_since(Instant::now()));
+    *release.0.lock().unwrap() = true;
+    release.1.notify_all();
+    let (r1, r2) = rx_thread.join().unwrap();
+    set_sync_handler(None);
+    let case = if kind == 'T' {
+        "vq sched st40:7 tick20 callT clk fold cancel0 tick26 callT clk fold".to_string()
+    }
+    else {
+        "vq sched st40:7 tick20 callR10 clk fold cancel0 tick26 wakecmd clk fold waketimeout callT clk fold".to_string()
+    };
+    let imp = format!("[{},{}]", show(r1), show(r2));
+    let verdict = if !reached || !in_time {
+        "inconclusive".to_string()
+    }
+    else if r1.is_some() || r2.is_some() {
+        "FAIL a timer cancelled before its deadline was delivered".to_string()
+    }
+    else {
+        "ok".to_string()
+    };
+    (case, imp, verdict, "forced-race,cancel".into())
+}
+
 fn emit_all(out: &mut impl std::io::Write, rows: Vec<(String, String, String)>) {
     for (trace, verdict, tags) in rows {
         if verdict == "inconclusive" {
@@ -976,6 +1054,22 @@ fn main() {
             }
             emit_all(&mut out, run_conc_parallel(scripts, threads));
         }
+        "gen-race" => {
+            for kind in ['T', 'R', 'T', 'R'] {
+                let mut r = run_race(kind);
+                let mut tries = 0;
+                while r.2 == "inconclusive" && tries < 4 {
+                    r = run_race(kind);
+                    tries += 1;
+                }
+                if r.2 == "inconclusive" {
+                    emit(&mut out, &format!("#inconclusive {}", r.0), "ok", "ok", "inconclusive");
+                }
+                else {
+                    emit(&mut out, &r.0, &r.1, &r.2, &r.3);
+                }
+            }
+        }
         "gen-stress" => {
             let mut rng = Rng::new(arg_u64(2, 1) ^ 0x5757);
             let n = arg_u64(3, 4);
@@ -993,6 +1087,11 @@ fn main() {
                         Some(script) => emit_all(&mut out, run_conc_parallel(vec![script], 1)),
                         None => emit(&mut out, &line, "bad-case", "ok", ""),
                     }
+                }
+                else if line.starts_with("vq sched") {
+                    let kind = if line.contains("callR") { 'R' } else { 'T' };
+                    let r = run_race(kind);
+                    emit(&mut out, &r.0, &r.1, &r.2, &r.3);
                 }
                 else if line.starts_with("vq hist") {
                     // a stress history cannot be re-executed deterministically: it is re-judged as recorded
